@@ -25,9 +25,11 @@ def run_case(case: dict) -> dict:
         root.mkdir()
         data, lines = annmodel.render_body(st, case["body"], case["eol"], case["final_nl"], case["bom"],
                                            case["sheb_idx"], case["tws_line"], case.get("quote", False), case.get("exotic", False), case.get("longfirst", 0))
-        f = root / "body"
+        f = root / case.get("fname", "body")
         f.write_bytes(data)
         opts = ["--copyright", "New Holder", "--license", "MIT", "--year", "2024", "--style", st["name"]]
+        if case.get("fname"):       # the style is left to the tool: what it makes of the NAME must not cost the file its content
+            opts = opts[:-2]
         if not case["replace"]:
             opts.append("--no-replace")
         if case.get("multi_line") and st["hasMulti"]:
@@ -37,7 +39,7 @@ def run_case(case: dict) -> dict:
         if r["exc"]:
             ev["crash"] = r["exc"][-500:]
         ev["exit"] = r["exit"]
-        ev["unchanged"] = after == data and not (root / "body.license").exists()
+        ev["unchanged"] = after == data and not (root / (case.get("fname", "body") + ".license")).exists()
         pre = annmodel.split_lines(data)
         post = annmodel.split_lines(after)
         ids = [ln["id"] for ln in case["body"]]
@@ -91,6 +93,16 @@ def run(ctx: core.Ctx) -> int:
                           "label": json.dumps({"style": st["name"], "class": g["st"], "replace": g["replace"],
                                                "kinds": [ln["k"] for ln in g["body"]], "eol": repr(eols[n % 3]),
                                                "bom": n % 7 == 0, "finalNL": n % 4 != 0, "quote": n % 3 == 1, "exotic": n % 4 == 3, "locale": "C" if n % 40 == 7 else "", "longfirst": [0, 0, 0, 0, 4095, 0, 0, 0, 5000, 0, 0][n % 11]})})
+    # files whose NAME looks like one of the tool's own in another spelling (FILE.license is replaced as a whole - NOTES.LICENSE
+    # is somebody's file), annotated without --style
+    py = next(s_ for s_ in styles if s_["name"] == "python")
+    for g in [g_ for g_ in gens if g_["st"] == annmodel.style_class(py, 0)][:12]:
+        for fname in ("NOTES.LICENSE", "x.py.License", "third-party.LiCeNsE"):
+            n = len(cases)
+            cases.append({"tid": n + 1, "style": py, "sheb_idx": 0, "body": g["body"], "replace": g["replace"], "eol": "\n", "final_nl": True,
+                          "bom": False, "tws_line": 0, "multi_line": False, "fname": fname,
+                          "label": json.dumps({"style": "python", "class": g["st"], "replace": g["replace"], "kinds": [ln["k"] for ln in g["body"]],
+                                               "eol": repr("\n"), "bom": False, "finalNL": True, "fname": fname})})
     events = ctx.pmap(run_case, cases, chunksize=64)
     for ev in events[:: max(1, len(events) // 4)][:4]:
         ctx.samples.append({"case": json.loads(ev["label"]), "before": ev["text"]["before"], "after": ev["text"]["after"],
@@ -122,7 +134,7 @@ def replay(ctx: core.Ctx, path: str) -> int:
     lab = json.loads(ev["label"])
     st = next(s for s in annmodel.style_table() if s["name"] == lab["style"])
     case = {"tid": 1, "style": st, "sheb_idx": 0, "body": ev["pre"], "replace": ev["replace"], "eol": eval(lab["eol"]),
-            "final_nl": lab["finalNL"], "bom": lab["bom"], "tws_line": 0, "multi_line": False, "quote": bool(lab.get("quote")), "exotic": bool(lab.get("exotic")), "locale_c": lab.get("locale") == "C", "longfirst": lab.get("longfirst", 0), "label": ev["label"]}
+            "final_nl": lab["finalNL"], "bom": lab["bom"], "tws_line": 0, "multi_line": False, "quote": bool(lab.get("quote")), "exotic": bool(lab.get("exotic")), "locale_c": lab.get("locale") == "C", "longfirst": lab.get("longfirst", 0), "label": ev["label"], **({"fname": lab["fname"]} if lab.get("fname") else {})}
     e = run_case(case)
     print(json.dumps(e["text"], indent=1))
     e.pop("text")
